@@ -9,6 +9,7 @@ import (
 	"os"
 	"path/filepath"
 	"sort"
+	"strconv"
 	"strings"
 	"sync"
 	"time"
@@ -25,7 +26,11 @@ import (
 )
 
 func init() {
-	batchProbes["C19"] = func(cases [][]string, out *bufio.Writer) { isolatedCases("C19", cases, 16, out, runSecrets) }
+	batchProbes["C19"] = func(cases [][]string, out *bufio.Writer) {
+		perChildLimit = 1 // a fresh process per scenario (syncers keep reconnecting after their source is gone)
+		isolatedCases("C19", cases, 16, out, runSecrets)
+		perChildLimit = 0
+	}
 }
 
 type lockedBuf struct {
@@ -75,6 +80,9 @@ func runSecrets(c []string) string {
 	conf.Options.Id = "verif"
 	conf.Options.Parallel = 2
 	conf.Options.TargetDB = -1
+	if len(c) > 7 {
+		conf.Options.TargetDB, _ = strconv.Atoi(c[7])
+	}
 	conf.Options.KeyExists = "rewrite"
 	conf.Options.TargetReplace = true
 	conf.Options.TargetVersion = "5.0"
@@ -116,6 +124,13 @@ func runSecrets(c []string) string {
 		case <-done:
 		case <-time.After(60 * time.Second):
 		}
+	case "restart":
+		// a source that refuses connections: Sync() restarts itself until the failure budget is used up and aborts
+		node := &slot.SyncNode{Id: 0, Source: "127.0.0.1:1", SourcePassword: srcpw, Target: []string{tgt.Addr()}, TargetPassword: tgtpw,
+			SlotLeftBoundary: -1, SlotRightBoundary: -1}
+		ds := dbSync.NewDbSyncer(node, 9320, semaphore.NewWeighted(1))
+		go ds.Sync()
+		time.Sleep(20 * time.Second)
 	case "restore":
 		run.VerifRestoreRDB(bufio.NewReader(bytes.NewReader(img)), []string{tgt.Addr()}, int64(len(img)))
 	case "dump":
